@@ -394,7 +394,11 @@ func constructEd25519Key(data []byte) (types.SigningPublicKey, error) {
 	}
 
 	// Create Ed25519PublicKey from the bytes using safe constructor
-	ed25519_key, err := ed25519.NewEd25519PublicKey(data)
+	// NewEd25519PublicKey wraps the slice it is given; copy first so that the key does not keep
+	// pointing into the caller's (parse) buffer like the DSA/ECDSA keys, which are copied.
+	keyCopy := make([]byte, len(data))
+	copy(keyCopy, data)
+	ed25519_key, err := ed25519.NewEd25519PublicKey(keyCopy)
 	if err != nil {
 		return nil, oops.Wrapf(err, "failed to construct Ed25519 public key")
 	}
